@@ -13,6 +13,7 @@ func TestC16(t *testing.T) {
 	r := newRun(t, "C16", "fault_enumeration")
 	defer r.Finish(t)
 	r.Rule = "v1 priority and v1 Simple: per base script (N operations: writes, drains without release, release groups, sleeps, closes) the signal {Stop, context cancel, Stop after a pending GracefulStop} is injected after EVERY prefix k in 0..N (plus prefixes in which nobody drains at all: output full / producers blocked); the state at injection is recorded (held/H, output fill, blocked writers); nobody reads the output and nobody releases while the harness waits; oracle: Stop() returns / Err() closes within 50us virtual (a busy loop is classified by the real-time watchdog from stack samples), Err() is closed once Stop returned, over a further 5us virtual the harness-owned output does not grow although inputs still hold items, Simple: no Handle call is entered or still running afterwards, everything delivered is an in-order duplicate-free subsequence of what was written; a quarter of the injections issue two concurrent Stop() calls, a quarter Stop together with cancel, a quarter of the v1 runs leave Opts.Ctx nil, and after completion a further Stop / GracefulStop / cancel / Stop sequence must return at once. v1 join (copy / no-copy): Stop / cancel after a random delivered slice, before or after its release, with the consumer slow or the release never sent; Stop() returns and the output closes within 1ms virtual, at most the one buffered slice is read afterwards. Real-clock blocks: the same join signals racing with live traffic; v1 priority / Simple with H handler goroutines, producers and the signal from a control goroutine at a random offset (order, duplicates, and nothing written to the harness-owned output once the stop has completed and every handler has left). non-trivial = injection landed in a non-idle state (items in flight, output full, producers blocked) or, for join, after at least one delivered slice; distinct by (scenario, position, signal)"
+	r.Rule += " | also: Stop / cancel right after the constructor has returned; Stop() after a divider fault whose error nobody read from Err()"
 	r.Assumptions = []string{prioAssume, "Handle of the simplified discipline honours its context (it returns when the context is cancelled)"}
 	r.Floor = 30
 	if r.Cfg.Replay != "" {
